@@ -29,7 +29,7 @@ var rules = []*Rule{
 		return append(append(append(append(ruleR10(p), p.wholeItems()...), p.eofOrigin()...), p.freshMessage()...), p.wholeHeaderAndMappedAccess()...)
 	}},
 	{ID: "R11", Title: "COPY-LOOP: every record read is accounted for", Props: []string{"C01", "C02", "C03", "C05", "C07", "C08", "C11", "C12", "C17", "C10"}, Run: func(p *Prog) []Ob {
-		return append(append(append(ruleR11(p), p.deletedSizeVersion()...), p.publishLoopObligations()...), append(append(append(p.indexTimeSeed(), p.wholeIndexCompare()...), p.scanBeforeVerdict()...), append(append(p.checkAndRecoverVerdicts(), p.publishedPositionIsWritten()...), p.recoverWritesKnownVersion()...)...)...)
+		return append(append(append(ruleR11(p), p.deletedSizeVersion()...), p.publishLoopObligations()...), append(append(append(append(p.indexTimeSeed(), p.recoverLooksAtTheIndex()...), p.wholeIndexCompare()...), p.scanBeforeVerdict()...), append(append(p.checkAndRecoverVerdicts(), p.publishedPositionIsWritten()...), p.recoverWritesKnownVersion()...)...)...)
 	}},
 	{ID: "R12", Title: "EFFECT-CONFINEMENT: who can change a log file", Props: []string{"C19", "C20", "C07", "C11", "C13", "C08"}, Run: func(p *Prog) []Ob { return append(ruleR12(p), p.indexConfinement()...) }},
 	{ID: "R15", Title: "FLOCK-PAIRING", Props: []string{"C19", "C02"}, Run: func(p *Prog) []Ob {
@@ -60,7 +60,7 @@ var rules = []*Rule{
 	{ID: "R21", Title: "HEAD-SCAN-BOUND", Props: []string{"C08"}, Run: ruleR21},
 	{ID: "R9", Title: "FORMAT-TABLES: encoder = decoder = documented layout", Props: []string{"C13", "C17", "C11", "C09", "C04", "C01", "C10", "C07"}, Run: func(p *Prog) []Ob { return append(ruleR9(p), p.headerFlagsExact()...) }},
 	{ID: "R24", Title: "USE-AFTER-ERROR: placeholder results of failed calls never reach a success", Props: []string{"C01", "C02", "C03", "C04", "C06", "C07", "C08", "C09", "C10", "C12", "C13", "C20"}, Run: ruleR24},
-	{ID: "R25", Title: "BACKUP-COMPLETENESS", Props: []string{"C20", "C11"}, Run: func(p *Prog) []Ob { return append(ruleR25(p), p.staleTargetIndexRemoved()...) }},
+	{ID: "R25", Title: "BACKUP-COMPLETENESS", Props: []string{"C20", "C11", "C19"}, Run: func(p *Prog) []Ob { return append(ruleR25(p), p.staleTargetIndexRemoved()...) }},
 	{ID: "R26", Title: "HEAD-INDEX-LIVENESS", Props: []string{"C03", "C08", "C19"}, Run: func(p *Prog) []Ob { return append(ruleR26(p), p.prebuiltIndexStays()...) }},
 	{ID: "R27", Title: "KEPT-READER-NOT-HEAD", Props: []string{"C03", "C12"}, Run: func(p *Prog) []Ob { return append(ruleR27(p), p.rewriteDropsOldIndex()...) }},
 	{ID: "R28", Title: "GET-EXACT and CONSUME-BOUND", Props: []string{"C04", "C03"}, Run: func(p *Prog) []Ob {
